@@ -11,7 +11,7 @@ from proj import retry as proj
 from proj.common import ticks
 
 ID = "C05"
-LEAN_MODULES = ["MoreExec.Props.C05", "MoreExec.Props.C03"]
+LEAN_MODULES = ["MoreExec.Props.C05", "MoreExec.Props.C03", "MoreExec.Props.C06"]
 THEOREMS = [
     "MoreExec.Retry.C05_attempts_sequential",
     "MoreExec.Retry.C05_never_early",
@@ -23,6 +23,8 @@ THEOREMS = [
     "MoreExec.Retry.C05_next_job_spec",
     "MoreExec.Retry.C05_eval_policy_facts",
     # "exactly then, not at a later fall-back wake-up": the submit thread's wait / clear / re-scan protocol
+    # the order of operations inside `_submit_now` / `_retry` / `_cancel` that the model's actions stand for (regenerated facts)
+    "MoreExec.Retry.C06_source_protocol",
     "MoreExec.WakeProto.C03_sleep_invariant",
     "MoreExec.WakeProto.C03_no_overshoot",
 ]
